@@ -254,7 +254,7 @@ def check_direction(ctx, out, vb, rule="C06.dir", only_other=False):
         return None
     h, lblocks = loops[0]
     drivers = {bi for bi, t in vb.calls() if bi in lblocks and callee_matches(t, r"Iterator>?::next$")
-               and re.search(r"blocks_with_context", render(ctx.expr(vb).operand(t["args"][0]), 3000))}
+               and shared.iterates_blocks(render(ctx.expr(vb).operand(t["args"][0]), 3000))}
     cmp_sites = {bi for bi, t in vb.calls() if (ctx.facts.body(t.get("res") or "") is not None) and ctx.facts.body(t.get("res")).local_ty(0).startswith("std::result::Result<std::cmp::Ordering")}
     viol_sites = {bi for bi, t in vb.calls() if callee_matches(t, r"validators::Violation::new$") or
                   (ctx.facts.body(t.get("res") or "") is not None and re.search(r"Result<blockwatch::validators::Violation,|^blockwatch::validators::Violation$", ctx.facts.body(t.get("res")).local_ty(0)))}
@@ -417,7 +417,7 @@ def check_pairs(ctx, out, vb, rule="C06.adjacent"):
         return
     h, lblocks = loops[0]
     drivers = {bi for bi, t in vb.calls() if bi in lblocks and callee_matches(t, r"Iterator>?::next$")
-               and re.search(r"blocks_with_context", render(ctx.expr(vb).operand(t["args"][0]), 3000))}
+               and shared.iterates_blocks(render(ctx.expr(vb).operand(t["args"][0]), 3000))}
     std = CW.std_hooks()
     n = 0
     import itertools
